@@ -28,6 +28,10 @@
 //	              (F43: `func deriveHash(this untyped nil)`); the function-consuming plugins get nil through badargs
 //	              — for these three: never a crash or hang; exit 0 only with a package that type-checks;
 //	              otherwise a message naming the call or type
+//	xtest         well-typed, supported: a package directory that also holds an EXTERNAL test package
+//	              (`package p_test`), without derive calls, with derive calls, together with in-package test
+//	              files; must end with exit 0 and a package that still type-checks (derived.gen.go present,
+//	              belonging to the package proper) or with a message
 //	nonascii      well-typed, supported: type names of 1-3 non-ASCII letters (2-, 3- and 4-byte letters), the
 //	              same type name in two or three imported packages, with helper requests (or user functions)
 //	              that already took prefix, prefix_ and every letter prefix of the name, so that the fresh-name
@@ -706,6 +710,10 @@ func genNilArgs(prefixes map[string]string) {
 		for i := range all {
 			all[i] = "nil"
 		}
+		emit("no arguments at all", nil)
+		if len(row.args) > 1 {
+			emit("first argument only", row.args[:1])
+		}
 		emit("nothing but untyped nil", all)
 		if len(row.args) > 1 {
 			for i := range row.args {
@@ -716,6 +724,30 @@ func genNilArgs(prefixes map[string]string) {
 		}
 		emit("one more argument, untyped nil", append(append([]string{}, row.args...), "nil"))
 	}
+}
+
+// ---------------------------------------------------------------- family: xtest
+
+func genXTest() {
+	proper := "package PKGDIR\n\ntype T struct {\n\tA []int\n\tB map[string]*T\n}\n\nfunc Eq(a, b *T) bool { return deriveEqual(a, b) }\n\nfunc H(a *T) uint64 { return deriveHash(a) }\n"
+	xNoCalls := "package PKGDIR_test\n\nimport (\n\t\"testing\"\n\n\tp \"bad/PKGDIR\"\n)\n\nfunc TestEq(t *testing.T) {\n\tif !p.Eq(&p.T{}, &p.T{}) {\n\t\tt.Fatal()\n\t}\n}\n"
+	xCalls := "package PKGDIR_test\n\nimport \"testing\"\n\nfunc TestX(t *testing.T) {\n\tif !deriveEqual([]int{1}, []int{1}) {\n\t\tt.Fatal()\n\t}\n}\n"
+	inTest := "package PKGDIR\n\nimport \"testing\"\n\nfunc TestIn(t *testing.T) {\n\tif deriveCompare([]string{\"a\"}, []string{\"b\"}) >= 0 {\n\t\tt.Fatal()\n\t}\n}\n"
+	stale := "// Code generated by goderive DO NOT EDIT.\n\npackage PKGDIR\n\nfunc deriveOld() {}\n"
+	// without derive calls in the external test package: exit 0 and the package builds (MustOK); with calls there:
+	// a package that type-checks, or a refusal whose message names the call or the external test package
+	x := func(what string, files map[string]string) {
+		withCalls := strings.Contains(files["x_test.go"], "derive")
+		add(caseT{Family: "xtest", What: what, Call: "deriveEqual", Names: []string{"deriveEqual", "deriveHash", "deriveCompare", "_test", "external test"},
+			MustOK: !withCalls, Unsupp: withCalls, Tag: "external-test-package"}, files)
+	}
+	x("external test package without derive calls", map[string]string{"p.go": proper, "x_test.go": xNoCalls})
+	x("external test package without derive calls, derived.gen.go already present", map[string]string{"p.go": proper, "x_test.go": xNoCalls, "derived.gen.go": stale})
+	x("external test package without derive calls, next to in-package test files with calls", map[string]string{"p.go": proper, "in_test.go": inTest, "x_test.go": xNoCalls})
+	x("external test package with derive calls of its own", map[string]string{"p.go": proper, "x_test.go": xCalls})
+	x("external test package with derive calls, package proper without any", map[string]string{"p.go": "package PKGDIR\n\nfunc X() int { return 1 }\n", "x_test.go": xCalls})
+	x("external test package only (no other files)", map[string]string{"x_test.go": xCalls})
+	x("in-package test files with calls only (control)", map[string]string{"p.go": proper, "in_test.go": inTest})
 }
 
 // ---------------------------------------------------------------- family: nonascii
@@ -886,6 +918,7 @@ func main() {
 	genBroken()
 	genAliasClash()
 	genUnresolved(prefixes)
+	genXTest()
 	genBlankFields(prefixes)
 	genSelfPointer(prefixes)
 	genNilArgs(prefixes)
